@@ -730,13 +730,18 @@ instance (W : List (String × TypeId)) : Decidable (NoClashW W) := by unfold NoC
 def hasRef (e : Entry) : Bool :=
   e.core.fields.any fun f => match f.kind with | .ref _ => true | .refs _ => true | _ => false
 
-/-- a step is quiet when `structure_to_schema` does not change `cls._required` (and, because the
-    model does not follow ClassReference fields into the referenced classes' `_required`, is not
-    applied to a class with such fields while the in-place write exists).  Every step is quiet when
-    `cfg.schemaWritesRequired` is off, which is the case for the current tree. -/
+/-- every class the fields of `e` refer to (directly or through `Array[...]`) is a FastSerializable class whose
+    own serializer can be generated (`fieldFast`, resolved at definition) -/
 def refsCreatable (e : Entry) : Bool :=
   e.core.fields.all fun f => match f.kind with | .ref _ => f.fastOk | _ => true
 
+/-- a step is quiet when (1) `structure_to_schema` does not change `cls._required` (and, because the model does
+    not follow ClassReference fields into the referenced classes' `_required`, is not applied to a class with such
+    fields while the in-place write exists) — always the case when `cfg.schemaWritesRequired` is off, as for the
+    current tree — and (2) it stays outside the region of the open finding about serializers resolved through the
+    MRO: no FastSerializable class is defined that refers to a class whose serializer cannot be generated, and
+    `create_serializer` is not called explicitly on a class with such a reference.  Inside that region the model
+    follows the real code one level deep only (`verifyFields`). -/
 def quietStep (cfg : Config) (w : World) : WorldOp → Bool
   | .define c src =>       -- known finding (mro-resolved-serialize-skips-generation): a FastSerializable class may refer only
                            -- to FastSerializable classes whose serializer can be generated
